@@ -185,17 +185,28 @@ Section RegionFacts.
       split_ifs; intros Hs; inversion Hs; subst; repeat split; lia.
   Qed.
 
-  Definition req_ok (W H x y w h : Z) : Prop :=
-    0 <= x /\ 0 <= y /\
-    match req_clip W H x y w h with Some (_, _, w1, h1) => 0 < w1 /\ 0 < h1 | None => True end.
+  (* the four fields of a FramebufferUpdateRequest are unsigned 16-bit wire values; an empty
+     request is ignored by the library (fix d5a464d), so nothing else has to be excluded *)
+  Definition req_ok (W H x y w h : Z) : Prop := 0 <= x /\ 0 <= y /\ 0 <= w /\ 0 <= h.
+
+  Lemma req_clip_nonneg W H x y w h x' y' w' h' :
+    0 <= w -> 0 <= h -> req_clip W H x y w h = Some (x', y', w', h') -> 0 <= w' /\ 0 <= h'.
+  Proof.
+    intros Hw Hh. unfold req_clip.
+    pose proof (Z.mod_pos_bound (W - x) 65536 ltac:(lia)). pose proof (Z.mod_pos_bound (H - y) 65536 ltac:(lia)).
+    destruct (w >? W - x) eqn:E1; destruct (h >? H - y) eqn:E2; cbv zeta;
+      split_ifs; intros Hs; inversion Hs; subst; split; lia.
+  Qed.
 
   Lemma inv_request W H F c incr x y w h :
     InvC W H F c -> req_ok W H x y w h -> InvC W H F (request_client W H incr x y w h c).
   Proof.
-    intros [I S] (Hx & Hy & Hok). unfold request_client.
+    intros [I S] (Hx & Hy & Hwn & Hhn). unfold request_client.
     destruct (req_clip W H x y w h) as [[[[x' y'] w'] h']|] eqn:E; [|split; assumption].
     destruct (req_clip_inside _ _ _ _ _ _ _ _ _ _ Hx Hy E) as (-> & -> & Hxw & Hyh).
-    destruct Hok as [Hw Hh].
+    destruct (req_clip_nonneg _ _ _ _ _ _ _ _ _ _ Hwn Hhn E) as [Hw1 Hh1].
+    destruct ((w' =? 0) || (h' =? 0)) eqn:Ez; [split; assumption|].
+    assert (Hw : 0 < w') by lia. assert (Hh : 0 < h') by lia.
     assert (Ht : WF (rgn_create_rect x y (x + w') (y + h'))) by (apply create_rect_wf; lia).
     destruct I. destruct c; csimpl.
     destruct incr.
@@ -274,11 +285,17 @@ Section RegionFacts.
       apply (core_ext _ _ _ (redraw_cursor_M st c0)); try (destruct c; reflexivity).
       apply core_redraw; assumption. }
     set (c2 := if newfb then set_flags c1 (cUseCopy c1) (cShape c1) (cCurChanged c1) (cReady c1) true false else c1).
-    set (c3 := if ext then set_flags c2 (cUseCopy c2) (cShape c2) (cCurChanged c2) (cReady c2) true true else c2).
+    set (c3a := if ext then set_flags c2 (cUseCopy c2) (cShape c2) (cCurChanged c2) (cReady c2) true true else c2).
+    assert (I3a : InvCore (sW st) (sH st) F c3a).
+    { apply (core_ext _ _ _ c1); [exact I1|..]; unfold c3a, c2; destruct ext; destruct newfb; destruct c1; reflexivity. }
+    set (c3 := if cShape c && negb (cShape c3a) then redraw_cursor_M st c3a else c3a).
     assert (I3 : InvCore (sW st) (sH st) F c3).
-    { apply (core_ext _ _ _ c1); [exact I1|..]; unfold c3, c2; destruct ext; destruct newfb; destruct c1; reflexivity. }
+    { unfold c3. destruct (cShape c && negb (cShape c3a)); [apply core_redraw; assumption|exact I3a]. }
     assert (E3 : cPW c3 = cPW c /\ cPH c3 = cPH c /\ cNewFBPending c3 = cNewFBPending c).
-    { unfold c3, c2, c1, c0. destruct ext; destruct newfb; destruct shape; destruct c; cbn; repeat split. }
+    { assert (E3a : cPW c3a = cPW c /\ cPH c3a = cPH c /\ cNewFBPending c3a = cNewFBPending c).
+      { unfold c3a, c2, c1, c0. destruct ext; destruct newfb; destruct shape; destruct c; cbn; repeat split. }
+      unfold c3. destruct (cShape c && negb (cShape c3a)); [|exact E3a].
+      destruct E3a as (? & ? & ?). destruct c3a; cbn in *. repeat split; assumption. }
     destruct E3 as (Ew & Eh & Ep).
     change (InvC (sW st) (sH st) F (if cUseNewFB c3 then c3 else client_resize c3 (sW st) (sH st))).
     destruct (cUseNewFB c3) eqn:Eu.
@@ -777,6 +794,7 @@ Section RegionFacts.
         apply invc_Fext with (F := fb_for (mkState sW sH sBpp sFBid sFB sCursor sCurX sCurY sMaxRects sSliceH sClients) a).
         { intros x0 y0 _. unfold fb_for, fbf. cbn. f_equal. unfold request_client.
           destruct (req_clip sW sH x y w h) as [[[[? ?] ?] ?]|]; [|reflexivity].
+          destruct (_ || _); [reflexivity|].
           destruct incr; destruct a; csimpl; [reflexivity|]. destruct cUseExt; reflexivity. }
         apply inv_request; assumption.
     - (* SetEncodings *)
